@@ -33,10 +33,13 @@ def scratch(patch=None):
 
 
 def main():
-    seeds = [os.path.abspath(s) for s in sys.argv[1:] if not s.startswith('--')]
+    argv = list(sys.argv[1:])
     props = PROPS
-    if '--props' in sys.argv:
-        props = sys.argv[sys.argv.index('--props') + 1].split(',')
+    if '--props' in argv:
+        i = argv.index('--props')
+        props = argv[i + 1].split(',')
+        del argv[i:i + 2]
+    seeds = [os.path.abspath(s) for s in argv if not s.startswith('--')]
     base_root = scratch()
     with ProcessPoolExecutor(max_workers=16) as ex:
         base = {p: (k, e) for p, k, e in ex.map(_run, [(p, base_root) for p in props])}
